@@ -101,6 +101,7 @@ def main(spec_path, out):
     lines = ["From Coq Require Import ZArith String List.", "Require Import Py.PyAst.", "Import ListNotations.", "Open Scope string_scope.", ""]
     allnames = []
     everything = []
+    bases = []
     for entry in spec:
         src = open(entry["file"]).read(); tree = ast.parse(src); ser = Ser(src)
         if entry["items"] == "*":
@@ -126,6 +127,8 @@ def main(spec_path, out):
             for n in tree.body:
                 if cls is None and isinstance(n, ast.FunctionDef) and n.name == fn: node = n
                 if cls is not None and isinstance(n, ast.ClassDef) and n.name == cls:
+                    if not any(c == cls for c, _ in bases):
+                        bases.append((cls, [b.id if isinstance(b, ast.Name) else ast.unparse(b) for b in n.bases]))
                     for m in n.body:
                         if isinstance(m, ast.FunctionDef) and m.name == fn: node = m
             name = "src_%s_%s" % (cls or "fn", fn.strip("_") if fn != "__init__" else "init")
@@ -134,6 +137,9 @@ def main(spec_path, out):
             lines.append(ser.fundef(node, name)); lines.append("")
             if not any(b == name for _, b in everything): everything.append(("%s.%s" % (cls or "", fn), name))
             if entry.get("star"): allnames.append(("%s.%s" % (cls or "", fn), name))
+    if bases:
+        lines.append("(* the base classes of every class with a serialised method, as written in the class statement *)")
+        lines.append("Definition src_bases : list (string * list string) :=\n  [" + ";\n   ".join("(%s, %s)" % (q(c), lst(q(b) for b in bs)) for c, bs in bases) + "].")
     if everything:
         lines.append("(* every serialised function of this property, by qualified name *)")
         lines.append("Definition src_fundefs : list (string * fundef) :=\n  [" + ";\n   ".join("(%s, %s)" % (q(a), b) for a, b in everything) + "].")
